@@ -39,6 +39,7 @@ def run(program, res, tier):
     c05._s4_slice_contract(program, Relabel(res, {"*": "C02-S1"}))
     c05.sql_division_rule(program, res, d, "C02-S1")
     c05.sql_modulo_tables(program, res, rule="C02-S1", dialects={"PostgreSQLModel"})
+    c05.sql_template_grouping_rule(program, res, rule="C02-S1", dialects={"PostgreSQLModel"})
     c05._require_decided(res)
     # configuration constants of the dialect
     cte = d.const_kwarg("supports_cte_elim")
